@@ -32,7 +32,7 @@ ANCHORS = [
     "raggedshape.py::RaggedView2._calculate_lengths",
     "raggedshape.py::build_indices",
 ]
-RECVS = ["fresh", "lazyrows", "lazycols+2", "lazycols-1", "lazychain", "ufunc", "astype", "deepcopy", "pickle", "copy-of-lazy", "readonly", "saveload", "concat", "fromnumpy", "fromnumpy-F", "tonumpy-called", "subclass", "was-argument", "byteswapped", "unsafe", "ctype-alias"]
+RECVS = ["fresh", "lazyrows", "lazycols+2", "lazycols-1", "lazychain", "ufunc", "astype", "deepcopy", "pickle", "copy-of-lazy", "readonly", "saveload", "concat", "fromnumpy", "fromnumpy-F", "tonumpy-called", "subclass", "was-argument", "byteswapped", "unsafe", "ctype-alias", "own-shape"]
 FLOOR_TAGS = ["recv:" + r_ for r_ in RECVS] + ["mask-as-list", "r:int", "r:slice+1", "r:slice+k", "r:slice-", "r:list", "r:array", "r:mask", "r:ell",
               "c:none", "c:int+", "c:int-", "c:slice+1", "c:slice+k", "c:slice-",
               "must-refuse", "sel-has-empty-row", "ellipsis-padded", "e-first", "e-last", "e-mid", "e-consec", "allempty", "norows"]
@@ -83,6 +83,14 @@ def build_receiver(recv, flat, lens):
             x.to_numpy_array()
             return x, None
         return RA(flat.copy(), list(lens)), None
+    if recv == "own-shape":
+        # the caller builds the RaggedShape himself, reads its derived vectors and reuses them for his own arithmetic (they are his), then builds the array
+        shape = CTX.lib.RaggedShape(list(lens))
+        for nm in ("ends",):
+            v_ = getattr(shape, nm)
+            if isinstance(v_, np.ndarray) and v_.flags.writeable and len(v_):
+                v_ -= 1
+        return RA(flat.copy(), shape), None
     if recv == "unsafe":            # built with the public safe_mode=False switch: refusals are off by design, everything legal must still be right
         return RA(flat.copy(), list(lens), safe_mode=False), None
     if recv == "ctype-alias":       # the same element type under its other C name (np.longlong is 64-bit like np.int64, but a different type object)
